@@ -8,6 +8,10 @@ import lib
 
 ID = "C19"
 LEAN_TARGETS = ["PV.Props.C19"]
+# T-C tie: the arrays handed to ScanGeometry(...) by every instrument definition, traced from the current source on
+# symbolic scan positions, are the model's per-point formulas / line structure for all real positions (PV.Equiv.Instr)
+import symtrace_instr  # noqa: E402
+EQUIV = dict(symtrace_instr.EQUIV_INSTR)
 RULE = ("every definition function (avhrr, avhrr_gac [int and datetime-list scan_times], avhrr_all/edge/40_geom, viirs, "
         "viirs_edge_geom, amsua, mhs, hirs4, atms, mwhs2, ascat, olci, slstr_nadir) x scan-line counts {1,2,3,7,50} "
         "(1..50 in thorough / intensified) x selections {default None, explicit full set, edges, slices, sorted and "
@@ -39,7 +43,10 @@ LEVEL_TEXT = ("Theorems (Lean 4 kernel) for EVERY line count and EVERY selection
               "theorem showing its times do depend on the selection); times >= 0, strictly increasing along a line, every "
               "sample of line k before every sample of line k+1 (VIIRS: per scan), successive lines exactly one scan "
               "period apart over the reals and within 1 ns after truncation to integer ns. The model is tied to the code "
-              "by bit-exact agreement of fovs and exact agreement of times(start) in ns.")
+              "by the T-C tie (PV.Equiv.Instr, 87 theorems: the angle and time arrays every definition hands to ScanGeometry, "
+              "traced from the source on symbolic scan positions for 1-3 lines, are the model's per-point formulas and line "
+              "structure for all real positions; ScanGeometry stores them unchanged and times are start + ns offsets), by the "
+              "regenerated constants, and by bit-exact agreement of fovs and exact agreement of times(start) in ns.")
 LEVEL_NOTE = ("Trusted: Lean kernel + Mathlib reals; propext/Classical.choice/Quot.sound; the hand-written model and its "
               "correspondence harness; constants regenerated from the AST; binary64 rounding is outside the theorems "
               "(tolerances 1e-12 and 2 ns are measured).")
